@@ -720,6 +720,24 @@ func checkC19(R *Run) {
 			ok = L.held(storeData, "mobius.FlatNews.mu", "this")
 			why = "the board text is replaced without the store mutex"
 		}
+		// the old text is read inside the same hold of the mutex in which the new text is installed: read outside, two
+		// posts made at the same moment both build on the same old board and the later one erases the earlier
+		if ok {
+			args := callArgsFlat(&concat.Call)
+			if ld, isIns := args[1].(ssa.Instruction); isIns {
+				if !L.held(ld, "mobius.FlatNews.mu", "this") {
+					ok, why = false, "the existing text is read at "+P.ipos(ld)+" before the store mutex is taken: two posts made at the same moment both prepend to the same old board and one of them is lost although it was acknowledged"
+				} else {
+					for _, ci := range callsIn(fn) {
+						if id, op, isLock := P.lockOp(fn, ci.Common()); isLock && op == "unlock" && id.Field == "mobius.FlatNews.mu" {
+							if _, isDefer := ci.(*ssa.Defer); !isDefer && instrDominates(ld, ci.(ssa.Instruction)) && instrDominates(ci.(ssa.Instruction), storeData) {
+								ok, why = false, "the mutex is released at "+P.ipos(ci)+" between reading the existing text and installing the new one"
+							}
+						}
+					}
+				}
+			}
+		}
 		// what is written to the temp file is f.data, after the assignment
 		if ok {
 			written := false
